@@ -97,10 +97,10 @@ Proof. exact (lone_call_sees_one HS parent_side_ok). Qed.
     synchronisation object used through the pthread API only, or the repository, every access to which is made
     while holding the repository mutex ([discipline]) *)
 Definition REACH := reachable_fns fn_refs data_refs.
-Lemma globals_classified : globals_ok tsrm_fns globals REACH = true.
+Lemma globals_classified : globals_ok tsrm_fns globals REACH inlined_helpers = true.
 Proof. vm_compute. reflexivity. Qed.
-Theorem C09_no_unprotected_shared : forall g, In g globals -> exists p, classify tsrm_fns globals REACH g = Some p.
-Proof. exact (globals_ok_all tsrm_fns globals REACH globals_classified). Qed.
+Theorem C09_no_unprotected_shared : forall g, In g globals -> exists p, classify tsrm_fns globals REACH inlined_helpers g = Some p.
+Proof. exact (globals_ok_all tsrm_fns globals REACH inlined_helpers globals_classified). Qed.
 
 (** non-vacuity: two threads inside wrapped calls at the same time, one of them at the thread-count read *)
 Definition sched_nv : list tid := repeat 0 6 ++ repeat 1 6 ++ repeat 0 4 ++ repeat 1 4 ++ [0].
